@@ -108,7 +108,9 @@ def main():
         prog = json.load(f)
     import pydra.engine.job as j
 
-    assert j.__file__.startswith("/repo/"), j.__file__
+    from simlib.paths import REPO
+
+    assert j.__file__.startswith(REPO + "/"), j.__file__
     from pydra.engine.job import Job
 
     Job._etelemetry_version_data = {"stub": True}
